@@ -45,6 +45,7 @@ class Req(object):
         self.empty_ident = False
         self.account = ""
         self.klass = ""
+        self.timer = True      # the request timer (3600 s) is pending until the guarded hook fires it
 
 
 class Model(object):
@@ -174,6 +175,12 @@ class Model(object):
             if len(rest.split(" ")) >= 2:
                 self.c["err"] += 1
                 self.c["err_req"] += 1
+        elif cmd == "#" and rest == "timeout":
+            # the guarded hook fires the request's real timer handler once: the soft holds are gone
+            if r.timer:
+                r.timer = False
+                r.soft = 0
+                self.check(r)
 
     def run_pending(self):
         todo, self.pending = self.pending, []
@@ -285,11 +292,12 @@ def gen_history(rng, n, policies):
                 # something else about the same client right behind it, in the same write: the command finds the request gone / replaced
                 lines.append(rng.choice(["%d D" % cid, "%d T" % cid, "%d C %s 5 10.0.0.1 6667" % (cid, rng.choice(IPS)), "%d H" % cid]))
             steps.append(lines)
-        elif r < 0.92:
+        elif r < 0.91:
             steps.append([rng.choice(["%d D" % cid, "%d T" % cid])])
             live.pop(cid, None)
         elif r < 0.97:
-            steps.append([rng.choice(["-1 ? stats", "-1 ? stats", "-1 ? config", "-1 M irc.example.net 20", "-1 E Garbage :text", "%d E Mismatch :x" % cid])])
+            steps.append([rng.choice(["-1 ? stats", "-1 ? stats", "-1 ? config", "-1 M irc.example.net 20", "-1 E Garbage :text", "%d E Mismatch :x" % cid, "%d # timeout" % cid,
+                                      "%d # timeout" % cid])])
         else:
             steps.append(["%d C %s %d 10.0.0.1 6667" % (cid, rng.choice(IPS), 7)])       # announced again while live
     steps.append(["-1 ? stats"])
